@@ -125,6 +125,13 @@ theorem skeleton_matches :
        "d.openFile()", "d.lock.Unlock()", "verifPoint(\"file.reopened\")"] := by
   decide +kernel
 
+/-- The output file is opened for appending (O_APPEND): each `Fprint` of a Send is one write(2) that the kernel places
+    at the current end of the file — the assumption under which concurrent senders holding the *read* lock cannot
+    overwrite each other (DESIGN: "assumes O_APPEND write atomicity"). Regenerated from `openFile`. -/
+theorem open_appends :
+    Goflow.Generated.skFileOpen = ["os.OpenFile(d.fileDestination, os.O_APPEND|os.O_CREATE|os.O_WRONLY, 0644)"] := by
+  decide +kernel
+
 /-- non-vacuity: 3 senders and 2 rotations, everything written once -/
 example : written (run true (init 3) [.send 0, .rotate, .send 2, .rotate, .send 1]) = [0, 2, 1] ∧
     fileOf (run true (init 3) [.send 0, .rotate, .send 2, .rotate, .send 1]) 1 = [2] := by decide
